@@ -2223,6 +2223,12 @@ impl Fsm {
                     exitList.push(*ec);
                 }
             }
+            for ec in exitList.iterator() {
+                self.executeContent(datamodel, *ec);
+            }
+
+            // W3C: the invocations of a state are cancelled after its onexit handlers have run
+            // (the handlers may still send to the invoked sessions).
             if !invoke_doc_ids.is_empty() {
                 let mut session_ids = Vec::new();
                 for (invoke_id, session) in &get_global!(datamodel).child_sessions {
@@ -2233,10 +2239,6 @@ impl Fsm {
                 for (invoke_id, session_id) in &session_ids {
                     self.cancelInvoke(datamodel, invoke_id, *session_id);
                 }
-            }
-
-            for ec in exitList.iterator() {
-                self.executeContent(datamodel, *ec);
             }
 
             get_global!(datamodel).configuration.delete(sid)
